@@ -197,6 +197,33 @@ FINDING_NAMES = {
 }
 
 
+def join_name_sets(hist):
+    """(shared non-key columns, key columns) over every natural_join of the history (and of its right sides)"""
+    shared, keys = set(), set()
+
+    def walk(h):
+        cols, roles = (list(h["columns"]), {c: "n" for c in h["columns"]}) if "columns" in h else (list(H.TABLES[h["table"]]), dict(H.TABLE_ROLES[h["table"]]))
+        states = [(cols, roles)]
+        for st in h["steps"]:
+            b = st.get("b")
+            if isinstance(b, dict) and "table" in b:
+                walk(b)
+            if st["op"] == "natural_join":
+                bc = menus.result_columns(b) if "table" in b else states[b["prefix"]][0]
+                on = st.get("on") or []
+                on_a = [o[0] if isinstance(o, (list, tuple)) else o for o in on]
+                on_b = [o[1] if isinstance(o, (list, tuple)) else o for o in on]
+                same = {a for a, bb in zip(on_a, on_b) if a == bb}
+                shared.update((set(cols) & set(bc)) - same)
+                keys.update(on_a)
+                keys.update(on_b)
+            cols, roles = menus.step_columns(st, cols, roles, states)
+            states.append((cols, roles))
+
+    walk(hist)
+    return shared, keys
+
+
 def classify(bk, desc, cmap, tmap, hist):
     """narrow matchers of listed findings: (backend, the internal name renamed to, step kinds present)"""
     target = list(cmap.values())[0] if cmap else list(tmap.values())[0]
@@ -220,12 +247,18 @@ def classify(bk, desc, cmap, tmap, hist):
         if target == "data_algebra_temp_merge_col" and "natural_join" in kinds:
             return "names.pandas_join_scratch_columns"
         if target.endswith("_tmp_right_col") and "natural_join" in kinds:
-            return "names.pandas_join_scratch_columns"
+            # the merge suffix only collides next to a shared non-key column of that very name
+            shared, _ = join_name_sets(hist)
+            if target[: -len("_tmp_right_col")] in shared:
+                return "names.pandas_join_scratch_columns"
     if bk == "polars":
         if target.startswith("_da_") and (kinds & {"extend", "project"}):
             return "names.polars_scratch_columns"
-        if (target.endswith("_da_right_tmp") or target.endswith("_da_left_tmp") or target.endswith("_da_join_tmp_key")) and "natural_join" in kinds:
-            return "names.polars_join_suffixes"
+        if "natural_join" in kinds:
+            shared, keys = join_name_sets(hist)
+            for suf, pool in (("_da_right_tmp", shared | keys), ("_da_left_tmp", shared | keys), ("_da_join_tmp_key", keys)):
+                if target.endswith(suf) and target[: -len(suf)] in pool:
+                    return "names.polars_join_suffixes"
     if bk == "sqlite":
         if cmap and (target in ("table_reference_0", "extend_1", "natural_join_0", "join_source_left_0", "join_source_right_0")):
             return None
